@@ -145,6 +145,37 @@ CLAIMS = {
         "serialisation; the impls! idiom (guarded by a must-fail sanity witness). obligations == discharged is required.",
         ref="DESIGN.md §5 C15",
     ),
+    "C17": dict(
+        category="other",
+        engine="cargo+mirdump+rules",
+        technique="build matrix + cross-configuration comparison of normalised resolved MIR (crate-qualified callee paths) "
+        "+ callee-crate allow-list for the functions that exist only with alloc/std",
+        text="By construction: the crate type-checks as #![no_std] without `extern crate alloc` (driver-confirmed extern "
+        "crate set), so no function compiled there can name an allocating item; every function that also exists in the "
+        "alloc/std/embedded configurations has an identical normalised MIR body there (CFGDIFF1), hence is allocation-"
+        "free in every configuration; the only additional functions are boxed(), to_vec() (exempt) and the I/O impls, "
+        "whose callees are restricted to in-crate functions, core and an allow-listed &[u8] reader (ALLOC1); no extern "
+        "blocks. The three feature configurations build on stable. BUILD+CFGDIFF1+ALLOC1 imply the statement; the "
+        "implication is an argument, not machine-checked.",
+        note="Trusted: `core` does not allocate; the allow-listed readers (std / embedded-io 0.6.1) do not allocate; "
+        "element types are non-allocating (statement). Panic paths excluded by the statement.",
+        ref="DESIGN.md §5 C17",
+    ),
+    "C18": dict(
+        category="other",
+        engine="cargo+mirdump+rules",
+        technique="cross-configuration diff of normalised resolved MIR against a reviewed table of cfg forks + shape "
+        "rules (operand provenance, positions) for each delegating arm",
+        text="Static decision that a behavioural difference between the default and the `unstable` build can only "
+        "originate in the reviewed set U of cfg-forked items (all other functions have identical resolved MIR in both "
+        "nightly builds), and that each arm in U is the reviewed delegation to a std API with the same operands in the "
+        "same positions (DELEG1); the unstable build type-checks. The ownership and panic-safety rules (C02-C06, C09-C11) "
+        "are evaluated on the unstable fact base in those checks' thorough tiers. Not decided: trace equality of the two "
+        "builds; the std APIs' equivalence to the stable arms is reviewed and trusted.",
+        note="[twin]-style rule: a behaviour-preserving rewrite of one arm would also be reported. Assumes documented "
+        "behaviour of assume_init_ref/mut, write_clone_of_slice, split_off*.",
+        ref="DESIGN.md §5 C18",
+    ),
 }
 
 
